@@ -443,6 +443,35 @@ def run(c):
                 s.cleanup()
         descriptor_exhaustion(c, t, rng, probe_file)
         if not c.quick:
+            # real time, not virtual: a request that waits 35 s in the queue behind silent peers must still be served
+            for n in (1, 3):
+                srv = server.Server(t.root, threads=n, trace=True)
+                try:
+                    if srv.started:
+                        socks = [srv.connect(timeout=60) for _ in range(n)]
+                        time.sleep(0.2)
+                        q = srv.connect(timeout=60)
+                        q.sendall(("GET %s HTTP/1.1\r\nHost: x\r\n\r\n" % probe_file).encode())
+                        time.sleep(35)
+                        for s_ in socks:
+                            s_.close()
+                        got = b""
+                        try:
+                            while True:
+                                b_ = q.recv(65536)
+                                if not b_:
+                                    break
+                                got += b_
+                        except (OSError, socket.timeout):
+                            pass
+                        q.close()
+                        c.ev()
+                        c.cls("queued-35s", n)
+                        if not got.startswith(b"HTTP/1.1 200"):
+                            c.violation("C06:queued-request-lost-after-35s", "a valid request that waited 35 s (real time) in the queue of a %d-worker server was answered %r" % (n, got[:40]), {"workers": n})
+                        probe_after(c, srv, t, n, ["queued-for-35-seconds"], probe_file)
+                finally:
+                    srv.cleanup()
             # real time, not virtual: 70 s without a single connection (timeouts inside the kernel do not see the clock shim)
             for n in (2, 4):
                 srv = server.Server(t.root, threads=n, trace=True)
